@@ -2,7 +2,10 @@ package props
 
 import (
 	"bytes"
+	"crypto/tls"
+
 	"fmt"
+	"github.com/hashicorp/go-hclog"
 	"sync"
 	"testing"
 	"time"
@@ -23,6 +26,12 @@ type c04Item struct {
 
 type c04Case struct {
 	Items []c04Item `json:"items"`
+	// Transport: plain (""), tls, starttls. End: what follows the requests in the SAME client write:
+	// "" nothing (the client closes after reading everything), "unbind" an UnbindRequest, "fin" a half-close.
+	Transport string `json:"transport,omitempty"`
+	End       string `json:"end,omitempty"`
+	// Debug: the server's logger is at debug level (the response writer has debug-only code)
+	Debug bool `json:"debug,omitempty"`
 }
 
 // expectation computed by the "last value set wins" model
@@ -291,23 +300,62 @@ func c04Exec(c c04Case, st *lab.Stats) *lab.Fail {
 	}
 	mux, _ := gldap.NewMux()
 	_ = mux.DefaultRoute(h)
-	srv, err := lab.StartServer(mux, lab.ServerOpts{})
+	transport := c.Transport
+	if transport == "" {
+		transport = "plain"
+	}
+	st.Class("transport="+transport, "end="+c.End)
+	sopts := lab.ServerOpts{}
+	if c.Debug {
+		sopts.LogLevel = hclog.Debug
+		st.Class("logger=debug")
+	}
+	var clientTLS *tls.Config
+	if transport != "plain" {
+		pki, _, err := lab.SharedPKI()
+		if err != nil {
+			st.Inconclusive(err.Error())
+			return nil
+		}
+		clientTLS = pki.ClientTLS(false)
+		if transport == "tls" {
+			sopts.TLS = pki.ServerTLS()
+		} else {
+			_ = mux.ExtendedOperation(lab.StartTLSHandler(pki.ServerTLS()), gldap.ExtendedOperationStartTLS)
+		}
+	}
+	srv, err := lab.StartServer(mux, sopts)
 	if err != nil {
 		st.Inconclusive(err.Error())
 		return nil
 	}
 	defer func() { _ = srv.Stop(10 * time.Second) }()
-	cl, err := lab.Dial(srv.Addr)
+	cl, err := lab.Connect(srv.Addr, transport, clientTLS)
 	if err != nil {
-		st.Inconclusive(err.Error())
-		return nil
+		if transport == "plain" {
+			st.Inconclusive(err.Error())
+			return nil
+		}
+		return lab.Failf("connect:"+transport, "cannot establish a %s session: %v", transport, err)
 	}
 	defer cl.Abort()
 	var buf []byte
 	for _, it := range c.Items {
 		buf = append(buf, it.Req.Bytes()...)
 	}
-	go func() { _ = cl.Send(buf) }()
+	if c.End == "unbind" {
+		buf = append(buf, ReqSpec{Req: wire.Req{Kind: "unbind", MsgID: 2147483001}}.Bytes()...)
+	}
+	go func() {
+		_ = cl.Send(buf)
+		if c.End == "fin" {
+			// half-close right behind the requests: the client still reads every response
+			type closeWriter interface{ CloseWrite() error }
+			if cw, ok := cl.C.(closeWriter); ok {
+				_ = cw.CloseWrite()
+			}
+		}
+	}()
 	frames := map[int64][]*wire.Message{}
 	got := 0
 	var skipped int64
@@ -373,7 +421,7 @@ func keysOf(m map[int64]int) []int64 {
 func TestC04(t *testing.T) {
 	lab.Prop[c04Case]{
 		ID: "C04", Part: "programs",
-		Rule: "rapid: 1..6 pipelined requests of every answerable operation with distinct random message IDs (never the arrival number), each answered by 1..5 response programs = constructor x documented options (every subset/order, repetition allowed) x setter sequences, optionally followed by further setters on the SAME response object and another Write (result codes 0..32767, application codes 0..30, strings empty/binary/>127/>65535 bytes, 0..4 attributes x 0..4 values, 0..4 controls of every kind); oracle = last-value-wins model evaluated on frames parsed by the independent strict codec, go-ldap's GetLDAPError/DecodeControl as second reader; non-trivial = message ID != Request.ID and (matched DN != diagnostic both set, or >= 2 attributes, or >= 1 control); distinct by hash of program+message ID",
+		Rule: "rapid: over plain / TLS / StartTLS-upgraded connections, server logger at error or debug level, 1..6 pipelined requests (optionally with an Unbind or a half-close right behind them in the same client write - every response written must still arrive) of every answerable operation with distinct random message IDs (never the arrival number), each answered by 1..5 response programs = constructor x documented options (every subset/order, repetition allowed) x setter sequences, optionally followed by further setters on the SAME response object and another Write (result codes 0..32767, application codes 0..30, strings empty/binary/>127/>65535 bytes, 0..4 attributes x 0..4 values, 0..4 controls of every kind); oracle = last-value-wins model evaluated on frames parsed by the independent strict codec, go-ldap's GetLDAPError/DecodeControl as second reader; non-trivial = message ID != Request.ID and (matched DN != diagnostic both set, or >= 2 attributes, or >= 1 control); distinct by hash of program+message ID",
 		Gen: func(t *rapid.T) c04Case {
 			var c c04Case
 			n := rapid.IntRange(1, 6).Draw(t, "nitems")
@@ -398,6 +446,9 @@ func TestC04(t *testing.T) {
 				}
 				c.Items = append(c.Items, it)
 			}
+			c.Transport = rapid.SampledFrom([]string{"", "", "", "tls", "starttls"}).Draw(t, "transport")
+			c.End = rapid.SampledFrom([]string{"", "", "unbind", "fin"}).Draw(t, "end")
+			c.Debug = rapid.IntRange(0, 3).Draw(t, "debug") == 0
 			return c
 		},
 		Exec: c04Exec,
